@@ -189,7 +189,8 @@ pub fn random_cfg(rng: &mut Sm, i: usize) -> AgentCfg {
         scale: *rng.pick(&[0.1, 0.5, 2.0]),
         order_ratio: *rng.pick(&[0.0, 0.5, 1.0, 2.0]),
         start_book: rng.below(4) as u8,
-        center: rng.range(100, 50_000) as u32,
+        // a tenth of the simulations run at the very bottom of the price range (asks on the first ticks)
+        center: if rng.chance(0.1) { 0 } else { rng.range(100, 50_000) as u32 },
         steps: rng.range(1, 200) as usize,
         seed: rng.next(),
         adv_rate: if rng.chance(0.3) { *rng.pick(&[0.02, 0.1, 0.3]) } else { 0.0 },
@@ -239,6 +240,13 @@ fn run_host<H: Host>(mut host: H, c: &AgentCfg, cs: &mut AgentCensus, tallies: &
     let quote = |env: &mut H::E, hr: &mut Sm| {
         for k in 0..assets {
             let tk = c.ticks[k];
+            if c.center == 0 {
+                // bottom of the range: asks on the first three ticks, bids (if any) cannot exist below
+                if c.start_book != 1 {
+                    let _ = env.place(k, false, hr.range(50, 500) as u32, HARNESS_TRADER, Some(tk * hr.range(1, 3) as u32));
+                }
+                continue;
+            }
             let ctr = (c.center / tk).max(20) * tk;
             if c.start_book == 1 || c.start_book == 3 {
                 let _ = env.place(k, true, hr.range(50, 500) as u32, HARNESS_TRADER, Some(ctr - tk * hr.range(1, 5) as u32));
